@@ -249,7 +249,7 @@ PROPS = {
                 "clocks (success/error x before / 1ns before / at / 1ns after / after the deadline / on cancellation / never until released), "
                 "0..3 overlapping second collections, optionally a follow-up collection on the same collector; non-trivial = at least one clock; "
                 "distinct = distinct event-log hash",
-        "required_probes": ["returned-at-deadline", "returned-early", "overlap-refused", "second-round", "partial-round", "success-with-zero-timestamp", "more-than-eight-clocks", "result-at-return-instant"],
+        "required_probes": ["returned-at-deadline", "returned-early", "overlap-refused", "second-round", "partial-round", "success-with-zero-timestamp", "more-than-eight-clocks", "result-at-return-instant", "second-caller-at-the-same-instant", "same-instant-first-caller-refused", "same-instant-second-caller-refused"],
         "components": {"real": ["core/client ReferenceClockClient.MeasureClockOffsets, collectMeasurements", "context.WithTimeout timers (raw, virtual time)"],
                        "stub": dict(STUBS_COMMON, **{"reference clocks": "scripted client.ReferenceClock implementations"})},
         "assumptions": ["goroutine quiescence is measured with runtime.NumGoroutine against a baseline taken inside the bubble"],
